@@ -161,6 +161,169 @@ Proof.
   replace (blen pre + pad) with (blen (pre ++ zeros pad)) by (rewrite blen_app, blen_zeros; lia).
   rewrite <- Hlen. rewrite read_mid. cbn [dbind].
   rewrite !blen_app, blen_zeros by lia. rewrite Hlen.
-  replace (blen pre + pad + sk_size k) with (blen pre + (pad + sk_size k)) in Hconv by lia.
+  replace (blen pre + (pad + sk_size k)) with (blen pre + pad + sk_size k) by lia.
   exact Hconv.
+Qed.
+
+(* ------------------------------------------------------------------ lists *)
+Lemma rt_nil : forall {A} (a : A), rt_ok (fun pos => Ok ([], pos)) (fun _ pos => DOk a pos) a.
+Proof.
+  intros A a pos Hpos. exists []. split.
+  - rewrite blen_nil. f_equal. f_equal. lia.
+  - intros. rewrite blen_nil. f_equal. lia.
+Qed.
+
+Lemma rt_list : forall {A B} (f : A -> Z -> res W) (g : list Z -> Z -> dres B) (h : A -> B) l,
+  (forall a, In a l -> rt_ok (f a) g (h a)) ->
+  rt_ok (ser_list f l) (fun buf => des_n (g buf) (length l)) (map h l).
+Proof.
+  induction l as [|a l IH]; intros Hall.
+  - apply rt_nil.
+  - cbn [ser_list length des_n map].
+    apply (rt_bind (f a) (ser_list f l) g
+             (fun x buf pos => dbind (des_n (g buf) (length l) pos) (fun l' p2 => DOk (x :: l') p2))
+             (h a) (h a :: map h l)).
+    + apply Hall. now left.
+    + apply (rt_map (ser_list f l) (fun buf => des_n (g buf) (length l)) (map h l) (cons (h a))).
+      apply IH. intros. apply Hall. now right.
+Qed.
+
+Lemma dbind_assoc : forall {A B C} (r : dres A) (f : A -> Z -> dres B) (g : B -> Z -> dres C),
+  dbind (dbind r f) g = dbind r (fun a p => dbind (f a p) g).
+Proof. intros. destruct r; reflexivity. Qed.
+
+Lemma des_n_app : forall {A} (f : Z -> dres A) a b pos,
+  des_n f (a + b) pos =
+  dbind (des_n f a pos) (fun l1 p1 => dbind (des_n f b p1) (fun l2 p2 => DOk (l1 ++ l2) p2)).
+Proof.
+  induction a; intros.
+  - cbn [Nat.add des_n dbind]. destruct (des_n f b pos); reflexivity.
+  - cbn [Nat.add des_n]. destruct (f pos) as [x p|c p|s]; cbn [dbind]; try reflexivity.
+    rewrite IHa. destruct (des_n f a p) as [l1 p1|c p1|s]; cbn [dbind]; try reflexivity.
+    destruct (des_n f b p1); reflexivity.
+Qed.
+
+Lemma des_pos_nat : forall {A} (f : Z -> dres A) p pos,
+  des_pos f p pos = des_n f (Pos.to_nat p) pos.
+Proof.
+  induction p; intros.
+  - rewrite Pos2Nat.inj_xI. cbn [des_pos].
+    replace (S (2 * Pos.to_nat p)) with (S (Pos.to_nat p + Pos.to_nat p)) by lia.
+    cbn [des_n]. destruct (f pos) as [x p0|c p0|s]; cbn [dbind]; try reflexivity.
+    rewrite des_n_app. rewrite IHp.
+    destruct (des_n f (Pos.to_nat p) p0) as [l1 p1|c p1|s]; cbn [dbind]; try reflexivity.
+    rewrite IHp.
+    destruct (des_n f (Pos.to_nat p) p1); reflexivity.
+  - rewrite Pos2Nat.inj_xO. cbn [des_pos].
+    replace (2 * Pos.to_nat p)%nat with (Pos.to_nat p + Pos.to_nat p)%nat by lia.
+    rewrite des_n_app. rewrite IHp.
+    destruct (des_n f (Pos.to_nat p) pos) as [l1 p1|c p1|s]; cbn [dbind]; try reflexivity.
+    rewrite IHp. reflexivity.
+  - cbn [des_pos]. change (Pos.to_nat 1) with 1%nat. cbn [des_n].
+    destruct (f pos); reflexivity.
+Qed.
+
+Lemma des_z_nat : forall {A} (f : Z -> dres A) n pos, des_z f (Z.of_nat n) pos = des_n f n pos.
+Proof.
+  intros. destruct n.
+  - reflexivity.
+  - unfold des_z. cbn [Z.of_nat].
+    rewrite des_pos_nat, SuccNat2Pos.id_succ. reflexivity.
+Qed.
+
+Lemma rt_list_z : forall {A B} (f : A -> Z -> res W) (g : list Z -> Z -> dres B) (h : A -> B) l n,
+  n = Z.of_nat (length l) ->
+  (forall a, In a l -> rt_ok (f a) g (h a)) ->
+  rt_ok (ser_list f l) (fun buf => des_z (g buf) n) (map h l).
+Proof.
+  intros. subst n.
+  apply (rt_ext (ser_list f l) _ (fun buf => des_n (g buf) (length l))).
+  - reflexivity.
+  - intros. now rewrite des_z_nat.
+  - now apply rt_list.
+Qed.
+
+Lemma map_id_eq : forall {A} (l : list A), map (fun x => x) l = l.
+Proof. induction l; cbn; congruence. Qed.
+
+(* ------------------------------------------------------------------ u32 fields *)
+Lemma align4 : forall V, align_compat V 4.
+Proof. destruct V; reflexivity. Qed.
+Lemma align2 : forall V, align_compat V 2.
+Proof. destruct V; reflexivity. Qed.
+Lemma align1 : forall V, align_compat V 1.
+Proof. destruct V; reflexivity. Qed.
+
+Lemma rt_u32 : forall V E z, 0 <= z <= u32_max ->
+  rt_ok (ser_prim V E KU32 z) (fun buf => des_prim V E buf KU32) z.
+Proof.
+  intros. apply rt_prim; [|discriminate|apply align4].
+  unfold in_range, u32_max in *. apply andb_true_intro. split; [apply Z.leb_le|apply Z.ltb_lt]; lia.
+Qed.
+
+(* ------------------------------------------------------------------ strings *)
+Lemma rt_string : forall V E s, str_ok s = true ->
+  rt_ok (ser_string V E s) (fun buf => des_string V E buf) s.
+Proof.
+  intros V E s Hs. unfold str_ok in Hs. boolZ.
+  unfold ser_string, des_string. cbv zeta.
+  pose proof (blen_nonneg (utf8_enc s)) as Hnn.
+  assert (Hw : wrap_u32 (blen (utf8_enc s)) = blen (utf8_enc s)).
+  { unfold wrap_u32, two32. apply Z.mod_small. unfold u32_max in *. lia. }
+  rewrite Hw.
+  apply (rt_bind _ _ (fun buf => des_prim V E buf KU32)
+           (fun len buf p1 =>
+              dbind (read_bytes buf p1 (Z.max 0 (len - 1))) (fun bs p2 =>
+              dbind (read_bytes buf p2 1) (fun _ p3 =>
+              match utf8_dec bs with Some s => DOk s p3 | None => DErr E_DATA p3 end)))
+           (blen (utf8_enc s) + 1) s).
+  - apply rt_u32. lia.
+  - intros pos Hpos. exists (utf8_enc s ++ [0]). split; [reflexivity|].
+    intros pre post Hpre. subst pos.
+    replace (Z.max 0 (blen (utf8_enc s) + 1 - 1)) with (blen (utf8_enc s)) by lia.
+    replace (pre ++ (utf8_enc s ++ [0]) ++ post) with (pre ++ utf8_enc s ++ ([0] ++ post))
+      by now rewrite <- !app_assoc.
+    rewrite read_mid. cbn [dbind].
+    replace (pre ++ utf8_enc s ++ [0] ++ post) with ((pre ++ utf8_enc s) ++ [0] ++ post)
+      by now rewrite <- !app_assoc.
+    replace (blen pre + blen (utf8_enc s)) with (blen (pre ++ utf8_enc s)) by now rewrite blen_app.
+    change 1 with (blen [0]) at 1. rewrite read_mid. cbn [dbind].
+    rewrite utf8_dec_enc by assumption. rewrite !blen_app. f_equal. lia.
+Qed.
+
+Lemma rt_wstring : forall V E s, str_ok s = true ->
+  rt_ok (ser_wstring V E s) (fun buf => des_wstring V E buf) s.
+Proof.
+  intros V E s Hs. unfold str_ok in Hs. boolZ.
+  unfold ser_wstring, des_wstring. cbv zeta.
+  pose proof (blen_nonneg (utf16_enc s)) as Hnn.
+  assert (Hw : wrap_u32 (blen (utf16_enc s)) = blen (utf16_enc s)).
+  { unfold wrap_u32, two32. apply Z.mod_small. unfold u32_max in *. lia. }
+  rewrite Hw.
+  apply (rt_bind _ _ (fun buf => des_prim V E buf KU32)
+           (fun len buf p1 =>
+              if len =? 0 then DOk [] p1 else
+              dbind (des_z (des_prim V E buf KU16) (len - 1) p1) (fun us p2 =>
+              dbind (des_prim V E buf KU16 p2) (fun nul p3 =>
+              if negb (nul =? 0) then DErr E_DATA p3 else
+              match utf16_dec us with Some s => DOk s p3 | None => DErr E_DATA p3 end)))
+           (blen (utf16_enc s) + 1) s).
+  - apply rt_u32. lia.
+  - replace (blen (utf16_enc s) + 1 =? 0) with false by (symmetry; apply Z.eqb_neq; lia).
+    apply (rt_bind _ _ (fun buf => des_z (des_prim V E buf KU16) (blen (utf16_enc s) + 1 - 1))
+             (fun us buf p2 =>
+                dbind (des_prim V E buf KU16 p2) (fun nul p3 =>
+                if negb (nul =? 0) then DErr E_DATA p3 else
+                match utf16_dec us with Some s => DOk s p3 | None => DErr E_DATA p3 end))
+             (utf16_enc s) s).
+    + rewrite <- (map_id_eq (utf16_enc s)) at 2.
+      apply rt_list_z; [unfold blen; lia|].
+      intros u Hu. apply rt_prim; [|discriminate|apply align2].
+      pose proof (utf16_units_range s H) as Hf. rewrite Forall_forall in Hf. specialize (Hf u Hu).
+      unfold in_range. apply andb_true_intro. split; [apply Z.leb_le|apply Z.ltb_lt]; lia.
+    + intros pos Hpos.
+      destruct (rt_prim V E KU16 0 eq_refl ltac:(discriminate) (align2 V) pos Hpos) as [bs [E1 D1]].
+      exists bs. split; [exact E1|]. intros pre post Hpre.
+      rewrite (D1 pre post Hpre). cbn [dbind]. change (negb (0 =? 0)) with false. cbv iota.
+      rewrite utf16_dec_enc by assumption. reflexivity.
 Qed.
